@@ -100,6 +100,9 @@ def parse_simple(content):
         elif b"=" in ln and ln[:1] != b"=":      # (a line that begins with the delimiter has no key: it is passed over)
             k, v = ln.split(b"=", 1)
             out.setdefault((cur, k), v)
+        elif b"=" not in ln:
+            # a key alone on its line (generated only for reads whose delimiter set contains a blank): no value, compared as empty text
+            out.setdefault((cur, ln.strip()), b"")
     return out
 
 
